@@ -55,12 +55,14 @@ type nodeSpec struct {
 	gateFn     func()        // if set, Process blocks inside this call instead (e.g. inside a message send)
 	shutBlocks bool          // Shutdown cannot return while the gate is closed (it needs what the wedged processing call holds)
 	// async behaviour: 0 answer inline, 1 answer from another goroutine after latency, 2 keep a backlog and flush it in Shutdown
-	asyncMode int
-	shutDelay time.Duration // how long Shutdown takes before it flushes and returns
-	structErr bool // return FBError instead of a plain error
-	isHandler bool
-	subs      []string
-	failRecv  bool
+	asyncMode   int
+	self        *vnode        // the node instance this scenario is bound to
+	setupParams string        // the parameters Setup was called with (sorted k=v list)
+	shutDelay   time.Duration // how long Shutdown takes before it flushes and returns
+	structErr   bool          // return FBError instead of a plain error
+	isHandler   bool
+	subs        []string
+	failRecv    bool
 
 	mu                sync.Mutex
 	recv              []string
@@ -154,7 +156,22 @@ func (s *nodeSpec) decide(payload string) outcome {
 type vnode struct {
 	fbcontext.ContextAware
 	spec      *nodeSpec
-	earlySubs bool // subscribed in the factory, before Init
+	bound     *nodeSpec // scenario bound at construction (instantiation order) instead of by id: ids may repeat then
+	earlySubs bool      // subscribed in the factory, before Init
+}
+
+// scenarios handed out in instantiation order (the route component, where several nodes may carry the same id)
+var factorySpecs []*nodeSpec
+
+func popFactorySpec() *nodeSpec {
+	factorySubsMu.Lock()
+	defer factorySubsMu.Unlock()
+	if len(factorySpecs) == 0 {
+		return nil
+	}
+	x := factorySpecs[0]
+	factorySpecs = factorySpecs[1:]
+	return x
 }
 
 // nodes that subscribe when they are constructed (in the registry factory, before the executor calls Init): the route
@@ -175,6 +192,7 @@ func popFactorySubs() ([]string, bool) {
 
 func newVsync() node.Node {
 	v := &vsync{}
+	v.bound = popFactorySpec()
 	if subs, ok := popFactorySubs(); ok {
 		v.Subscribe(subs)
 		v.earlySubs = true
@@ -185,11 +203,21 @@ func newVsync() node.Node {
 var errSharedRecv = errors.New("recv-fail-shared")
 
 func (v *vnode) Setup(config map[string]string) error {
-	v.spec = lookupSpec(v.ID)
+	v.spec = v.bound
+	if v.spec == nil {
+		v.spec = lookupSpec(v.ID)
+	}
 	if v.spec == nil {
 		return fmt.Errorf("no scenario for node %s", v.ID)
 	}
 	v.spec.mu.Lock()
+	v.spec.self = v
+	var pks []string
+	for k, val := range config {
+		pks = append(pks, k+"="+val)
+	}
+	sort.Strings(pks)
+	v.spec.setupParams = strings.Join(pks, ",")
 	v.spec.setupCount++
 	v.spec.setupSeq = nextSeq()
 	v.spec.mu.Unlock()
@@ -497,8 +525,8 @@ type sourceScript struct {
 	stopAt          int // call executor.Shutdown (through stopFn) after this many emitted events in total (-1 never)
 	emitted         int
 	stopFn          func()
-	hookAt          int    // hookFn is called when this many events have been emitted
-	hookFn          func() // something else the application does in the same process meanwhile
+	hookAt          int      // hookFn is called when this many events have been emitted
+	hookFn          func()   // something else the application does in the same process meanwhile
 	outCh           []string // identity of the output channel seen by each incarnation
 	params          []string
 	lastStartReturn int64
